@@ -189,7 +189,7 @@ def v1_fee_sweep(ctx: Ctx, n: int):
         except Exception as ex:  # noqa: BLE001
             fee, out = None, type(ex).__name__
         ctx.impl_traces += 1
-        tcls = "T=0" if T == 0 else ("T<1000" if T < 1000 else "T-ok")
+        tcls = "T=0" if T == 0 else ("T<200" if T < 200 else "T-ok")
         if out == "ok":
             fee_f = F(fee)
             if not (0 <= fee_f <= 85):
@@ -197,9 +197,9 @@ def v1_fee_sweep(ctx: Ctx, n: int):
             vt = G.vault_target(weight, supply, total)
             vf = G.vault_fee_bps(initial, delta, vt, inc)
             slack = 1 + (F(200) / T if T > 0 else 0)
-            if abs(fee_f - vf) > slack or (T < 200 and abs(fee_f - vf) > 1):
-                if T < 1000:
-                    ctx.violate("v1.fee.vault_rule.dust_target", f"fee {fee} vs Vault rule {vf}: target {float(T)!r} is below 1000 wei of USDG", rep)
+            if abs(fee_f - vf) > slack:
+                if vt < 200:
+                    ctx.violate("v1.fee.vault_rule.dust_target", f"fee {fee} vs Vault rule {vf}: target {float(T)!r} is below 200 wei of USDG", rep)
                 elif G.branch_edge(initial, delta, weight, supply, total, inc):
                     ctx.violate("v1.fee.vault_rule.branch_edge", f"fee {fee} vs Vault rule {vf} at the rule's discontinuity |next-target| = |initial-target| "
                                 f"(initial {initial}, delta {delta}, target {float(T)!r}, increase {inc})", rep)
